@@ -1,11 +1,13 @@
 package main
 
 import (
+	"bytes"
 	"crypto/sha256"
 	"fmt"
 	"os"
 	"path/filepath"
 	"sort"
+	"strconv"
 	"strings"
 	"sync"
 	"time"
@@ -376,6 +378,23 @@ func c01(run *ev.Run, tier string) {
 		mu.Unlock()
 	})
 	c01Directed(run, &st)
+	// the command line tool with the packager guessed from the target's extension
+	// ships what the configuration (its per-format overrides included) lists
+	if bin := nfpmBin(run); bin != "" {
+		cliGuessedPackager(run, bin, "C01", func(f string, named, guessed []byte) {
+			p := dec.Decode(f, guessed, false)
+			want := map[string]string{"/opt/guessed/plain.txt": "plain payload\n", "/opt/guessed/only-" + f + ".txt": "only for " + f + "\n", "/etc/guessed/" + f + ".conf": "setting = " + f + "\n"}
+			for pth, body := range want {
+				st.entries++
+				if e := p.Find(pth); len(p.Errs) > 0 || e == nil || string(e.Data) != body {
+					run.Violate("C01/cli/"+f+"/configured-entry-missing/packager-guessed-from-target-extension", map[string]any{"path": pth, "found": e != nil, "decode_errors": p.Errs})
+				}
+			}
+			if !bytes.Equal(named, guessed) {
+				run.Violate("C01/cli/"+f+"/package-differs/packager-guessed-from-target-extension", map[string]any{"len_named": len(named), "len_guessed": len(guessed)})
+			}
+		})
+	}
 	run.Set("entries_compared", st.entries)
 	run.Set("attribute_comparisons", st.attrs)
 	run.Set("source_bytes_hashed", st.bytesHashed)
@@ -503,23 +522,24 @@ func c01Directed(run *ev.Run, st *cmpStats) {
 	}
 	// no configured mtime, SOURCE_DATE_EPOCH beyond 2^31 (after 2038): it is the
 	// package-wide default mtime, so regular files carry it
-	{
+	// the same for the start of the epoch itself: 0 is a date like any other
+	for _, sde := range []int64{4000000000, 0} {
 		prev, had := os.LookupEnv("SOURCE_DATE_EPOCH")
-		_ = os.Setenv("SOURCE_DATE_EPOCH", "4000000000")
+		_ = os.Setenv("SOURCE_DATE_EPOCH", strconv.FormatInt(sde, 10))
 		s := &gen.Spec{Name: "directed", Arch: "amd64", Version: "1.0.0", Maintainer: "D <d@example.com>", Description: "d"}
 		s.RPM.BuildHost = "verif-host"
 		s.Contents = []*gen.Content{file("/opt/sde/extra.txt"), tree("/opt/sde/t")}
 		for _, f := range formats {
-			run.Case("directed|source-date-epoch-after-2038-is-the-default-mtime|"+f, true)
+			run.Case(fmt.Sprintf("directed|source-date-epoch-%d-is-the-default-mtime|%s", sde, f), true)
 			res := buildYAML(s.YAML(), f)
 			if res.Err != nil || res.Panic != "" {
-				run.Violate("C01/"+f+"/build-error/directed", map[string]any{"case": "SOURCE_DATE_EPOCH=4000000000", "error": fmt.Sprint(res.Err, ev.Short(res.Panic, 300))})
+				run.Violate("C01/"+f+"/build-error/directed", map[string]any{"case": fmt.Sprintf("SOURCE_DATE_EPOCH=%d", sde), "error": fmt.Sprint(res.Err, ev.Short(res.Panic, 300))})
 				continue
 			}
 			pkg := dec.Decode(f, res.Bytes, false)
 			for _, e := range pkg.Entries {
-				if e.Kind == "file" && strings.HasPrefix(e.Path, "/opt/sde/") && e.MTime != 4000000000 {
-					run.Violate("C01/"+f+"/file-mtime/source-date-epoch-default", map[string]any{"path": e.Path, "got": e.MTime, "want": int64(4000000000)})
+				if e.Kind == "file" && strings.HasPrefix(e.Path, "/opt/sde/") && e.MTime != sde {
+					run.Violate("C01/"+f+"/file-mtime/source-date-epoch-default", map[string]any{"source_date_epoch": sde, "path": e.Path, "got": e.MTime, "want": sde})
 					break
 				}
 			}
